@@ -890,3 +890,39 @@ def mon_c13(ex, info, col):
                     if info.fac_wp[f] != crec[k]:
                         out.append(V("C13", "C13:logged-facility-of-another-workplace[%s]" % _shape(info, info.task_comp[tn]), ex, {"k": k, "task": tn, "facility": f, "component_workplace": crec[k]}))
     return out
+
+
+def carry_in_pair(ex, info, sa, cn, tn, w, t):
+    """for an UNPLACED top-level component cn (task tn): an assigned workplace with room for it (judged by where the components are) and a FREE eligible machine
+    there that worker w can operate -> (workplace, machine), else None.  Room and free resources only shrink during a step, so what holds at the end of the
+    allocation held at the task's own turn."""
+    if info.comp_parents.get(cn):
+        return None
+    tasks = sa["tasks"]
+    _sz = lambda c: 1.0 if info.comps[c].get("space") is None else info.comps[c]["space"]  # noqa: E731
+    below, todo = [], list(info.comp_children.get(cn, []))
+    while todo:
+        c_ = todo.pop()
+        if c_ not in below:
+            below.append(c_)
+            todo += info.comp_children.get(c_, [])
+    size = _sz(cn) + sum(_sz(c_) for c_ in below)
+    for wp2 in sorted(info.wp):
+        if tn not in info.wp_targets[wp2]:
+            continue
+        cap = info.wp[wp2].get("cap")
+        cap = 1.0 if cap is None else (float("inf") if cap == "inf" else cap)
+        used = sum(_sz(c) for c in info.comps if sa["components"][c][1] == wp2
+                   and not (not info.comp_parents.get(c) and info.comp_tasks.get(c) and all(tasks[x][0] == S.T_FINISHED for x in info.comp_tasks[c])))
+        if not cap - used > size - 1e-8:
+            continue
+        if info.wp_inputs.get(wp2):
+            pass  # (an unplaced component may enter a workplace that has input workplaces)
+        for f in info.wp_facilities.get(wp2, []):
+            fst, fa = sa["facilities"][f]
+            if fst != S.R_FREE or fa or res_absent(ex, info, f, t):
+                continue
+            if info.facility_static_ok(f, tn) is not None or not info.can_operate(w, f):
+                continue
+            return wp2, f
+    return None
